@@ -22,7 +22,7 @@ func (c23) ID() string { return "C23" }
 
 func (c23) Budget(tier string) int {
 	if tier == "thorough" {
-		return 30000
+		return 60000
 	}
 	return 2400
 }
